@@ -23,29 +23,37 @@ def check(ctx):
     ri = ctx.fn("registering", "Registrar.__init__")
     V = FuncView(ctx, ri)
     cfg = V.cfg
+    NAMES = "self.__class__.Names"
     reg = [n for n in cfg.nodes if any(isinstance(x, ast.Subscript) and isinstance(x.ctx, ast.Store) and
-                                      src(x.value) == "self.__class__.Names" for x in cfg.walk_node(n))]
+                                      src(V.sym(x.value, n)) == NAMES for x in cfg.walk_node(n))]
     V.need(reg, "self.__class__.Names[self.name] = self")
-    wl = [n for n in cfg.nodes if n.kind == "test" and isinstance(n.ast, ast.While) and src(n.ast.test).replace("(", "").replace(")", "") == "name in self.__class__.Names"]
-    V.need(wl, "while name in Names loop")
-    dup = [n for n in cfg.nodes if n.kind == "test" and isinstance(n.ast, ast.If) and src(n.ast.test).replace("(", "").replace(")", "") == "name in self.__class__.Names"]
-    V.need(dup, "elif name in Names test")
+    # membership tests on the candidate name, whatever statement carries them (while / if / elif) and however Names is reached
+    mt = [n for n in cfg.nodes if n.kind == "test" and src(V.sym(n.ast.test, n)) == "name in " + NAMES]
+    V.need(mt, "`name in Names` test")
+    dup = [n for n in mt if isinstance(n.ast, ast.If)]
     empt = V.need(V.ptests("not name"), "`if not name` test")
     raises = [n for n in cfg.nodes if n.kind == "raise"]
-    ok = any(V.dominated_by_edge([r], dup[0], "T") for r in raises)
-    # every path to the registration passes either the while-loop exit (F edge) or the dup test F edge
-    r = cfg.reachable(cfg.entry.id, removed_edges=cfg.edges_from(wl[0].id, "F") + cfg.edges_from(dup[0].id, "F"))
-    ok = ok and not ({x.id for x in reg} & r)
-    ok = ok and V.under([wl[0]], empt[0]) and V.under([dup[0]], empt[0], holds=False)
-    ctx.check(ok, "T1-unique", ri, "registration dominated by `while name in Names` exit or `name in Names => raise`",
+    ok = any(V.dominated_by_edge([r], d, "T") and V.under([d], empt[0], holds=False) for r in raises for d in dup)
+    # the name registered is one that a membership test has just found free: from the function entry and from every
+    # (re)definition of `name`, the registration is reachable only through the false outcome of such a test
+    free = [e for m in mt for e in cfg.edges_from(m.id, "F")]
+    starts = [cfg.entry.id] + [b_ for d in V._def_nodes("name") for b_, _ in cfg.succ[d]]
+    regids = {x.id for x in reg}
+    for s0 in starts:
+        if s0 in regids:
+            ok = False
+        elif regids & cfg.reachable(s0, removed_edges=free):
+            # a definition inside the checking loop re-enters the test: only count reaching the registration *without* a test
+            ok = False
+    ctx.check(ok, "T1-unique", ri, "registration only after `name in Names` was found false for the final name; explicit duplicates raise",
               "an instance must never be registered under a name that is already taken: explicit duplicates are "
-              "rejected, generated names are extended until free")
+              "rejected, generated names are extended until free (a name changed after its last check is unchecked)")
     # the stored name is the checked one
     st = V.stores("self.name")
     ctx.check(bool(st) and all(isinstance(s.ast, ast.Assign) and dotted(s.ast.value) == "name" for s in st) and V.dominated(reg, st),
               "T1-unique", ri, "self.name = name before registration", "the registered key is the checked name")
-    regk = [x for n in reg for x in cfg.walk_node(n) if isinstance(x, ast.Subscript) and isinstance(x.ctx, ast.Store)]
-    ctx.check(all(src(x.slice) == "self.name" for x in regk), "T1-unique", ri, "Names[self.name] = self", "keyed by the instance name")
+    regk = [(n, x) for n in reg for x in cfg.walk_node(n) if isinstance(x, ast.Subscript) and isinstance(x.ctx, ast.Store)]
+    ctx.check(all(src(x.slice) in ("self.name", "name") for n, x in regk), "T1-unique", ri, "Names[self.name] = self", "keyed by the instance name")
     # between check and registration no other registration/creation can interleave: names are re-read from the class at each test
     # roots
     for modn, cn in (("storing", "Store"), ("tasking", "Tasker"), ("framing", "Frame"), ("logging", "Log"), ("housing", "House"),
@@ -64,9 +72,25 @@ def check(ctx):
               "Registries = %s" % got, "the per-house registries must be exactly store, tasker and log")
     ar = ctx.fn("housing", "House.assignRegistries")
     A = FuncView(ctx, ar)
-    lp = [n for n in A.cfg.nodes if n.kind == "for" and call_name(n.ast.iter) == "Registries.items"]
-    st_n = [n for n in A.cfg.nodes if isinstance(n.ast, ast.Assign) and src(n.ast.targets[0]) == "value.Names" and src(n.ast.value) == "self.names[key]"]
-    st_c = [n for n in A.cfg.nodes if isinstance(n.ast, ast.Assign) and src(n.ast.targets[0]) == "value.Counter" and src(n.ast.value) == "self.counters[key]"]
+    lp = [n for n in A.cfg.nodes if n.kind == "for" and src(A.sym(n.ast.iter, n)) in ("Registries.items()", "Registries", "Registries.keys()")]
+    st_n, st_c = [], []
+    for h in lp:
+        tg = h.ast.target
+        if isinstance(tg, ast.Tuple) and len(tg.elts) == 2:
+            key, objs = tg.elts[0].id, {tg.elts[1].id}
+        elif isinstance(tg, ast.Name):
+            key, objs = tg.id, set()
+        else:
+            continue
+        objs.add("Registries[%s]" % key)
+        for n in A.cfg.nodes:
+            if isinstance(n.ast, ast.Assign) and isinstance(n.ast.targets[0], ast.Attribute) and id(n.ast) in {id(x) for x in ast.walk(h.ast)}:
+                t0 = n.ast.targets[0]
+                if src(A.sym(t0.value, n)) in objs or src(t0.value) in objs:
+                    if t0.attr == "Names" and src(A.sym(n.ast.value, n)) == "self.names[%s]" % key:
+                        st_n.append(n)
+                    if t0.attr == "Counter" and src(A.sym(n.ast.value, n)) == "self.counters[%s]" % key:
+                        st_c.append(n)
     ctx.check(bool(lp) and bool(st_n) and bool(st_c), "T6-roots", ar, "assignRegistries rebinds Names and Counter of every registry",
               "both the name table and the counter must be switched to the house's own")
     tests_ar = [t for t in A.cfg.nodes if t.kind == "test"]
